@@ -43,10 +43,11 @@ K_ALLMASK = "dir:all-points-masked:result-shape-ignores-directions"
 C08_INVS = ["WellFormed", "HalfOpen", "DirWithinIso", "DirLengthFree", "EarlyExitSound", "EarlyFirstSame"]
 C09_INVS = {
     "iso": ["PermInvariant", "TranslationInvariant", "OrthoInvariant", "ShiftInvariant", "ScaleCovariant",
-            "MissingIsRemoved", "RepresentationIrrelevant", "PerFieldSkipping"],
+            "MissingIsRemoved", "RepresentationIrrelevant", "PreprocessAfterMarking", "PerFieldSkipping"],
     "dir": ["PermInvariant", "TranslationInvariant", "OrthoInvariant", "DirLengthInvariant", "ShiftInvariant",
-            "ScaleCovariant", "MissingIsRemoved", "RepresentationIrrelevant"],
-    "gc": ["PermInvariant", "OrthoInvariant", "ShiftInvariant", "ScaleCovariant", "MissingIsRemoved", "RepresentationIrrelevant"],
+            "ScaleCovariant", "MissingIsRemoved", "RepresentationIrrelevant", "PreprocessAfterMarking"],
+    "gc": ["PermInvariant", "OrthoInvariant", "ShiftInvariant", "ScaleCovariant", "MissingIsRemoved", "RepresentationIrrelevant",
+           "PreprocessAfterMarking", "UnitFree"],
     "axis": ["AxisIsDirectional", "AxisReversal", "AxisMaskIsMissing"],
     "sub": ["SubsampleAll", "PermInvariant", "PerFieldSkipping", "MissingIsRemoved"],
 }
@@ -221,7 +222,7 @@ SIZES = {
                            gc=dict(ns=(2, 3, 4, 5), P=16, F=4, E=8, reps=3),
                            axis=dict(G=260, E=3), sub=None, cap=1700),
     ("C09", "quick"): dict(iso=dict(ns=(2, 3, 4, 5, 6), P=6, F=5, E=5),
-                           dir=dict(ns=(2, 3, 4, 5), P=3, F=2, E=2, D=4, B=(0, 2)),
+                           dir=dict(ns=(2, 3, 4, 5), P=3, F=2, E=2, D=3, B=(0, 2)),
                            gc=dict(ns=(2, 3, 4, 5), P=8, F=3, E=5, reps=2),
                            axis=dict(G=120, E=3), sub=dict(ns=(4, 5, 6, 7), P=4, F=2, E=3), cap=400),
     ("C08", "thorough"): dict(iso=dict(ns=(2, 3, 4, 5, 6), P=32, F=16, E=16),
@@ -236,6 +237,8 @@ SIZES = {
 
 COMMON = {"Shifts": frozenset({-3, 5}), "Scales": frozenset({-1, 2, 3}),
           "Transl": frozenset({(1, -2, 3), (-3, 0, 1)}), "DirMults": frozenset({-1, 3})}
+# integer valued trend functions t(p) = c0 + c1 p1 + c2 p2 + c3 p3 (small for lat-lon: values stay far from the markers)
+TRENDS = {"euclid": [(1, 2, -1, 1), (-3, -2, 1, 2)], "gc": [(1, 1, -1, 0), (2, -1, 1, 0)]}
 EMPTY = {"Groups": frozenset(), "EdgeSets": frozenset(), "DirSets": frozenset(), "Tols": frozenset(),
          "Bands": frozenset({0}), "Grids": frozenset(), "SubSizes": frozenset()}
 
@@ -257,6 +260,7 @@ def plan_jobs(pid, tier, rng):
             cs = dict(EMPTY)
             cs.update(COMMON)
             cs.update(consts)
+            cs["Trends"] = frozenset(TRENDS["gc" if mode == "gc" else "euclid"][:2 if tier == "thorough" else 1])
             cs["Groups"] = frozenset([_FrozenRec(make_group(P[i:i + chunk]))])
             cs["Mode"] = mode
             jobs.append({"name": "MC_%s_%s_%d" % (mode, tag, c), "mode": mode, "consts": cs,
@@ -295,6 +299,7 @@ def plan_jobs(pid, tier, rng):
         cs = dict(EMPTY)
         cs.update(COMMON)
         cs["Mode"] = "axis"
+        cs["Trends"] = frozenset()
         cs["Grids"] = frozenset(_FrozenRec({k: v for k, v in g.items() if k != "nd"}) for g in G[i:i + chunk])
         cs["EdgeSets"] = frozenset(_uniq(lambda: rand_edges(rng), p["E"]))
         jobs.append({"name": "MC_axis_%d" % c, "mode": "axis", "consts": cs, "est": 2 * p["E"] * len(G[i:i + chunk])})
@@ -476,6 +481,7 @@ class Ctx:
         self.relations = {}
         self.boundary_inputs = 0
         self.features = {}
+        self.trends = []
 
     def violation(self, key, what, replay):
         if key in self.hits:
@@ -566,15 +572,29 @@ def field_form(ctx, fa):
     return [list(map(float, row)) for row in fa]
 
 
-def c08_forms(ctx, fa):
+def c08_forms(ctx, fa, pa):
     """The data of a C08 input in the forms vario_estimate accepts: NaN markers, and (if values are
     missing) every representation of Render in the spec -- masked stacks / lists of masked arrays with
-    different masks per field and finite raw data below the mask, mask=, no_data."""
-    forms = [("nan", field_form(ctx, fa), {})]
-    if np.isnan(fa).any():
-        for kind in REPR_KINDS:
-            f_, kw = render(fa, kind, as_list=ctx.rng.random() < 0.5)
-            forms.append((kind, f_, kw))
+    different masks per field and finite raw data below the mask, mask=, no_data.  Every other form is
+    combined with a trend / mean that the call has to remove again (the data passed contain it; the
+    definition applies to the valid data after its removal)."""
+    rng = ctx.rng
+    kinds = ["nan"] + (list(REPR_KINDS) if np.isnan(fa).any() else [])
+    forms = []
+    for kind in kinds:
+        base, kw, label = fa, {}, kind
+        if ctx.trends and rng.random() < 0.5:
+            tf = trend_fn(rng.choice(ctx.trends))
+            tv = tf(*pa)
+            if rng.random() < 0.5:
+                base, kw, label = fa + tv, {"trend": tf}, kind + "+trend"
+            else:
+                base, kw, label = fa + tv + 4.0, {"mean": tf, "trend": 4.0}, kind + "+mean+trend"
+        if kind == "nan":
+            f_, k2 = field_form(ctx, base), {}
+        else:
+            f_, k2 = render(base, kind, as_list=rng.random() < 0.5)
+        forms.append((label, f_, dict(k2, **kw)))
     return forms
 
 
@@ -605,7 +625,7 @@ def replay_iso_c08(ctx, gs, K, st):
             _fail(ctx, "iso:kernel:%s:%s" % (est_name(est), bad[0]),
                   "unstructured(%s, euclid) dim=%d differs from the definition in bin %d (%s)" % (est_name(est), dim, bad[2], bad[0]),
                   "iso", st, "unstructured(f, edges, pos, %r, 'e')" % est, _obs(v, c))
-        for form, fld, kw in c08_forms(ctx, fa):
+        for form, fld, kw in c08_forms(ctx, fa, pa):
             r = safe_api(ctx, st, "iso", "vario_estimate(%s, missing as %s)" % (est_name(est), form),
                          lambda: call_api(gs, pos_form(ctx, pa), fld, ed, est, **kw))
             if r is None:
@@ -680,7 +700,7 @@ def replay_dir_c08(ctx, gs, K, st):
             ctx.calls += 1
             _dir_check(ctx, st, "directional(separate_dirs=True)", "directional(f, edges, pos, unit dirs, tol, bw, True, %r)" % est,
                        full, early, v, c, est, "kernel-separated", True)
-        for form, fld, kw in c08_forms(ctx, fa):
+        for form, fld, kw in c08_forms(ctx, fa, pa):
             kw = dict(kw, **dir_kwargs(inp))
             r = safe_api(ctx, st, "dir", "vario_estimate(direction=..., %s, missing as %s)" % (est_name(est), form),
                          lambda: call_api(gs, pos_form(ctx, pa), fld, ed, est, **kw))
@@ -737,7 +757,7 @@ def replay_gc_c08(ctx, gs, K, st):
         v, c = K.unstructured(fa, ed, pa, est, "h", None)
         ctx.calls += 1
         _gc_check(ctx, st, "unstructured(haversine)", "unstructured(f, edges_rad, latlon, %r, 'h')" % est, _as2d(v), _as2d(c), est, "kernel")
-        for form, fld, kw in c08_forms(ctx, fa):
+        for form, fld, kw in c08_forms(ctx, fa, pa):
             r = safe_api(ctx, st, "gc", "vario_estimate(latlon=True, %s, missing as %s)" % (est_name(est), form),
                          lambda: call_api(gs, pos_form(ctx, pa), fld, ed.copy(), est, latlon=True, **kw))
             if r is None:
@@ -871,11 +891,19 @@ def _check_rel_once(ctx, st, mode, rel, exp, call, est, kw_desc, tol=1e-12, scal
               % (rel, mode, est_name(est), bad[1] + 1, bad[2], bad[0], kw_desc), mode, st, kw_desc, _obs(v, c))
 
 
-GARB, NODATA = 55.0, 77.0
+GARB, NODATA = 555.0, -999.0
 REPR_KINDS = ("entry-mask", "empty-point-mask", "point-mask", "no-data", "mixed")
 
 
-def render(fa, kind, as_list=False):
+def trend_fn(T):
+    """Float image of TrendAt(T, .) of the spec."""
+    def trend(*x):
+        return T[0] + sum(c * xi for c, xi in zip(T[1:], x))
+    trend.__name__ = "trend%s" % (tuple(T),)
+    return trend
+
+
+def render(fa, kind, as_list=False, nodata=NODATA):
     """Float image of Render(flds, kind) of the spec: (field object, keyword arguments).
     Finite, distinctive raw data is stored under every mask."""
     nanm = np.isnan(fa)
@@ -890,6 +918,8 @@ def render(fa, kind, as_list=False):
             return [np.ma.array(vals[i].copy(), mask=m[i].copy()) for i in range(nf)]
         return np.ma.array(vals.copy(), mask=m.copy())
 
+    if kind == "nan":
+        return (fa.copy() if nf > 1 else fa[0].copy()), {}
     if kind == "entry-mask":
         return ma(garb, nanm), {}
     if kind == "empty-point-mask":
@@ -897,14 +927,14 @@ def render(fa, kind, as_list=False):
     if kind == "point-mask":
         return ma(garb, nanm & ~allna[None, :]), {"mask": allna.copy()}
     if kind == "no-data":
-        v = np.where(nanm, NODATA, fa)
-        return (v if nf > 1 else v[0]), {"no_data": NODATA}
+        v = np.where(nanm, nodata, fa)
+        return (v if nf > 1 else v[0]), {"no_data": nodata}
     if kind == "mixed":
-        v = np.where(nanm, NODATA, fa)
+        v = np.where(nanm, nodata, fa)
         v[0, nanm[0]] = GARB
         m = np.zeros_like(nanm)
         m[0] = nanm[0]
-        return ma(v, m), {"mask": allna.copy(), "no_data": NODATA}
+        return ma(v, m), {"mask": allna.copy(), "no_data": nodata}
     raise AssertionError(kind)
 
 
@@ -1019,6 +1049,21 @@ def replay_points_c09(ctx, gs, K, st, mode):
         for label, p_, f_, kw in missing_forms(ctx, fa, pa):
             run("missing:" + label, p_, f_, kw,
                 idx=[j for j in range(n) if not np.isnan(fa[:, j]).all()] if label == "removed" else None)
+    # pre-processing combined with every representation of the missing values (spec: PreprocessAfterMarking)
+    if np.isnan(fa).any() and ctx.trends:
+        tf = trend_fn(rng.choice(ctx.trends))
+        tv = tf(*pa)
+        for kind in ("nan",) + REPR_KINDS:
+            lst = rng.random() < 0.5
+            f_, kw = render(fa + tv, kind, as_list=lst)
+            run("preprocess+missing:trend:" + kind, pa, f_, dict(kw, trend=tf))
+            f_, kw = render(fa + tv + 4.0, kind, as_list=lst)
+            run("preprocess+missing:mean+trend:" + kind, pa, f_, dict(kw, mean=tf, trend=4.0))
+            f_, kw = render(fa - 6.0, kind, as_list=lst)
+            run("preprocess+missing:mean-constant:" + kind, pa, f_, dict(kw, mean=-6.0))
+            # a positive marker, so that the normaliser maps it to a finite value
+            f_, kw = render(np.exp(fa + 2.0), kind, as_list=lst, nodata=999.0)
+            run("preprocess+missing:lognormal:" + kind, pa, f_, dict(kw, normalizer=gs.normalizer.LogNormal, mean=2.0), tol=1e-9)
     # per-field skipping: the stack is the pair-count weighted mean of its fields
     if nf > 1 and mode != "dir":
         singles = []
@@ -1067,18 +1112,9 @@ def replay_points_c09(ctx, gs, K, st, mode):
         for gsc, nm in ((gs.DEGREE_SCALE, "degree"), (gs.KM_SCALE, "km"), (7.0, "arbitrary")):
             run("geo_scale:" + nm, pa, fld0, {"geo_scale": gsc}, edges=ed * gsc)
         run("geo_scale:degree-literal-edges", pa, fld0, {"geo_scale": gs.DEGREE_SCALE}, edges=_half_degrees(inp["E"]))
-        # default standard bins: the bin centres are in the scaled unit (two real outputs related)
-        if n >= 2:
-            ctx.rel("standard-bins:geo_scale")
-            c1 = gs.vario_estimate(pa, fld0, latlon=True)[0]
-            for gsc in (gs.KM_SCALE, 7.0):
-                c2 = gs.vario_estimate(pa, fld0, latlon=True, geo_scale=gsc)[0]
-                ctx.calls += 1
-                # 1e-6: the chord -> arc conversion (arcsin) is ill-conditioned for nearly antipodal boxes (error ~ 1e-8)
-                if np.shape(c1) != np.shape(c2) or not np.allclose(c2, gsc * c1, rtol=1e-6, atol=0):
-                    _fail(ctx, "rel:standard-bins:gc:geo_scale", "standard bins with geo_scale=%s are not geo_scale * the radian bins" % gsc,
-                          mode, st, "vario_estimate(latlon=%s, field, latlon=True, geo_scale=%s)[0]" % (pa.tolist(), gsc),
-                          {"radian": np.asarray(c1).tolist(), "scaled": np.asarray(c2).tolist()})
+        # standard bins in a length unit == the radian bins after unit conversion, for all four argument
+        # forms (nothing / bin_no / max_dist / both), through standard_bins and through vario_estimate
+        std_bins_gc(ctx, gs, st, pa, fld0, float(ed[-1]) if ed[-1] > 0 else 0.7)
     E = inp["E"]
     if E[0] == 0 and len({b - a for a, b in zip(E, E[1:])}) == 1:
         # equidistant edges from 0 are the standard bins for (bin_no, max_dist)
@@ -1089,6 +1125,7 @@ def replay_points_c09(ctx, gs, K, st, mode):
         else:
             run("standard-bins(bin_no,max_dist)", pa, fld0, {"bin_no": nb, "max_dist": float(ed[-1])}, std=True)
     if mode == "iso" and n >= 2:
+        std_bins_euclid(ctx, gs, st, pa, fld0, dim)
         ctx.rel("standard-bins:permutation/translation")
         c1 = gs.vario_estimate(pa, fld0)[0]
         c2 = gs.vario_estimate(pa[:, pi] + 3.0, fa[:, pi] if nf > 1 else fa[0, pi])[0]
@@ -1097,6 +1134,87 @@ def replay_points_c09(ctx, gs, K, st, mode):
             _fail(ctx, "rel:standard-bins:iso:permutation/translation", "standard bins change under a permutation + translation of the points",
                   mode, st, "vario_estimate(pos, field)[0]", {"base": np.asarray(c1).tolist(), "moved": np.asarray(c2).tolist()})
     return True
+
+
+def std_bins_gc(ctx, gs, st, pa, fld0, m_rad):
+    """Relations between real outputs (documented: max_dist is the cut-off length of the bins, in the unit
+    given by geo_scale; bin_no is the number of bins; geo_scale only changes the unit)."""
+    rng = ctx.rng
+    inp, out = st["inp"], st["out"]
+    pts = inp["pts"]
+    k = rng.randint(2, 6)
+    forms = [("nothing", {}), ("bin_no", {"bin_no": k}), ("max_dist", {"max_dist": m_rad}), ("both", {"bin_no": k, "max_dist": m_rad})]
+    # exact pair distances (degrees, same rule as the spec): only a guard that keeps pairs sitting on an
+    # automatically generated edge out of the count comparison -- it never produces a verdict
+    drad = [gc_dist(pts[a], pts[b]) * math.pi / 180.0 for a in range(len(pts)) for b in range(a + 1, len(pts))]
+
+    def bad(form, obs, what, detail):
+        _fail(ctx, "rel:standard-bins:gc:%s:%s" % (form, obs), "standard bins (%s given): %s" % (form, what), "gc", st,
+              "standard_bins / vario_estimate(latlon=%s, latlon=True, %s)" % (pa.tolist(), detail), detail)
+
+    for form, kw in forms:
+        ctx.rel("standard-bins:geo_scale:" + form)
+        try:
+            e_r = gs.variogram.standard_bins(pa, latlon=True, **kw)
+            r_r = gs.vario_estimate(pa, fld0, latlon=True, return_counts=True, **kw)
+        except Exception as e:  # noqa: BLE001
+            bad(form, "exception", "raised %r" % (e,), {"kw": kw})
+            continue
+        ctx.calls += 2
+        exact = "max_dist" in kw
+        if e_r[0] != 0.0 or ("bin_no" in kw and len(e_r) != k + 1) or (exact and not np.isclose(e_r[-1], m_rad, rtol=1e-14, atol=0)):
+            bad(form, "edges", "edges do not run from 0 to max_dist in bin_no bins", {"kw": kw, "edges": e_r.tolist()})
+        if not np.allclose(r_r[0], (e_r[:-1] + e_r[1:]) / 2, rtol=1e-12, atol=1e-300):
+            bad(form, "centres", "vario_estimate centres are not the mid points of standard_bins", {"kw": kw, "centres": np.asarray(r_r[0]).tolist(), "edges": e_r.tolist()})
+        for gsc in (gs.KM_SCALE, 7.0, gs.DEGREE_SCALE):
+            kg = dict(kw, geo_scale=gsc)
+            if exact:
+                kg["max_dist"] = m_rad * gsc
+            try:
+                e_g = gs.variogram.standard_bins(pa, latlon=True, **kg)
+                r_g = gs.vario_estimate(pa, fld0, latlon=True, return_counts=True, **kg)
+            except Exception as e:  # noqa: BLE001
+                bad(form, "exception", "raised %r" % (e,), {"kw": kg})
+                continue
+            ctx.calls += 2
+            # automatic diameter: chord -> arc (arcsin) is ill-conditioned for nearly antipodal boxes (~1e-8)
+            # ... and for (nearly) coincident points the automatic diameter is pure rounding noise (~1e-16 rad)
+            rtol = 1e-12 if exact else 1e-6
+            atol = 0.0 if exact else 1e-9 * gsc
+            if e_g.shape != e_r.shape or not np.allclose(e_g, gsc * e_r, rtol=rtol, atol=atol):
+                bad(form, "edges", "edges with geo_scale=%s are not geo_scale * the radian edges" % gsc,
+                    {"kw": kg, "radian": e_r.tolist(), "scaled": e_g.tolist()})
+                continue
+            if np.shape(r_g[0]) != np.shape(r_r[0]) or not np.allclose(r_g[0], gsc * np.asarray(r_r[0]), rtol=rtol, atol=atol):
+                bad(form, "centres", "bin centres with geo_scale=%s are not geo_scale * the radian centres" % gsc,
+                    {"kw": kg, "radian": np.asarray(r_r[0]).tolist(), "scaled": np.asarray(r_g[0]).tolist()})
+                continue
+            on_edge = any(abs(d - e) <= 1e-9 * max(1.0, e) for d in drad for e in e_r) or e_r[-1] < 1e-6
+            if not on_edge and not out["anti"]:
+                if not (np.array_equal(r_g[2], r_r[2]) and np.allclose(r_g[1], r_r[1], rtol=1e-12, atol=1e-12)):
+                    bad(form, "counts", "counts / values with geo_scale=%s differ from the radian run" % gsc,
+                        {"kw": kg, "radian": _obs(r_r[1], r_r[2]), "scaled": _obs(r_g[1], r_g[2])})
+
+
+def std_bins_euclid(ctx, gs, st, pa, fld0, dim):
+    rng = ctx.rng
+    k, m = rng.randint(2, 6), rng.choice([1.5, 2.0, 3.25])
+    for form, kw in (("bin_no", {"bin_no": k}), ("max_dist", {"max_dist": m}), ("both", {"bin_no": k, "max_dist": m})):
+        ctx.rel("standard-bins:" + form)
+        try:
+            e = gs.variogram.standard_bins(pa, dim=dim, **kw)
+            r = gs.vario_estimate(pa, fld0, **kw)
+        except Exception as ex:  # noqa: BLE001
+            _fail(ctx, "rel:standard-bins:iso:%s:exception" % form, "raised %r" % (ex,), "iso", st, repr(kw), {"exception": repr(ex)})
+            continue
+        ctx.calls += 2
+        ok = e[0] == 0.0 and ("bin_no" not in kw or len(e) == k + 1) and ("max_dist" not in kw or e[-1] == m)
+        ok = ok and np.allclose(np.diff(e), e[-1] / (len(e) - 1), rtol=1e-12, atol=0) if e[-1] > 0 else ok
+        ok = ok and np.allclose(r[0], (e[:-1] + e[1:]) / 2, rtol=1e-12, atol=0)
+        if not ok:
+            _fail(ctx, "rel:standard-bins:iso:%s:edges" % form, "standard bins are not bin_no equal bins from 0 to max_dist, or the centres "
+                  "returned by vario_estimate are not their mid points", "iso", st, "standard_bins(pos, dim, %s)" % kw,
+                  {"edges": e.tolist(), "centres": np.asarray(r[0]).tolist()})
 
 
 def _half_degrees(E):
@@ -1331,6 +1449,7 @@ def _work(arg):
     invs = list(C08_INVS) if pid == "C08" else ["WellFormed"] + C09_INVS[job["mode"]]
     mod, cfg = mc_text(job, invs, again=(pid == "C09"))
     ctx = Ctx(pid, tier, seed, job["name"])
+    ctx.trends = sorted(job["consts"]["Trends"])
     res = {"name": job["name"], "mode": job["mode"]}
     with tlc.Scratch() as sc:
         sc.write(job["name"] + ".tla", mod)
